@@ -179,6 +179,11 @@ func (s *State) doCall(call *ssa.Call, cc *ssa.CallCommon) ([]*State, bool) {
 	if key == "sort::Search" {
 		return s.sortSearch(call, args)
 	}
+	if key == "sort::Slice" || key == "sort::SliceStable" {
+		if s.sortSlice(call, cc, args) {
+			return nil, false
+		}
+	}
 	if sp := c.SS.specFor(fn); sp != nil && (sp.HasBody || sp.Trusted) && !sp.Inline {
 		s.contractCall(call, sp, fn, fn.Signature, args, key, occ, false)
 		s.runGhost(fr, fmt.Sprintf("after %s#%d", anchorName, occ))
@@ -847,6 +852,78 @@ func (s *State) sortSearch(call *ssa.Call, args []Value) ([]*State, bool) {
 	})
 	next, _ := stage2(s1)
 	return append(next, s), true
+}
+
+// sortSlice: sort.Slice(x, less) where less is a closure with a contract of the form `ensures result <==> E`.
+// Afterwards the elements of x are a permutation of the old ones and no later element is less than an earlier one,
+// with "less" read from the closure's contract (which is verified separately against the closure's body).
+func (s *State) sortSlice(call *ssa.Call, cc *ssa.CallCommon, args []Value) bool {
+	c := s.C
+	mi, ok := cc.Args[0].(*ssa.MakeInterface)
+	if !ok {
+		return false
+	}
+	st, ok := c.under(mi.X.Type()).(*types.Slice)
+	if !ok {
+		return false
+	}
+	var cl *Closure
+	switch v := args[1].(type) {
+	case *Closure:
+		cl = v
+	case string:
+		cl = closureReg[v]
+	}
+	if cl == nil || len(cl.Fn.Params) != 2 {
+		return false
+	}
+	sp := c.SS.specFor(cl.Fn)
+	if sp == nil || len(sp.Ensures) != 1 {
+		return false
+	}
+	bin, ok := sp.Ensures[0].E.(*EBin)
+	if !ok || (bin.Op != "<==>" && bin.Op != "==") {
+		return false
+	}
+	if id, ok := bin.X.(*EIdent); !ok || id.Name != "result" {
+		return false
+	}
+	xs := s.term(mi.X)
+	cn, cs := c.elemComp(st.Elem())
+	E := s.comp(cn, cs)
+	es := c.sortOf(st.Elem())
+	A0 := s.name("srt0", "(Array Int "+es+")", fmt.Sprintf("(select %s (s.base %s))", E, xs))
+	A1 := s.freshConst("srt1", "(Array Int "+es+")")
+	s.setComp(cn, cs, fmt.Sprintf("(store %s (s.base %s) %s)", E, xs, A1))
+	lo := fmt.Sprintf("(s.off %s)", xs)
+	hi := fmt.Sprintf("(+ (s.off %s) (s.len %s))", xs, xs)
+	p, q := c.fresh("q_p"), c.fresh("q_q")
+	s.assert(fmt.Sprintf("(forall ((%s Int)) (! (=> (and (<= %s %s) (< %s %s)) (exists ((%s Int)) (and (<= %s %s) (< %s %s) (= (select %s %s) (select %s %s))))) :pattern ((select %s %s))))", p, lo, p, p, hi, q, lo, q, q, hi, A1, p, A0, q, A1, p))
+	s.assert(fmt.Sprintf("(forall ((%s Int)) (! (=> (and (<= %s %s) (< %s %s)) (exists ((%s Int)) (and (<= %s %s) (< %s %s) (= (select %s %s) (select %s %s))))) :pattern ((select %s %s))))", q, lo, q, q, hi, p, lo, p, p, hi, A1, p, A0, q, A0, q))
+	s.assert(fmt.Sprintf("(forall ((%s Int)) (! (=> (not (and (<= %s %s) (< %s %s))) (= (select %s %s) (select %s %s))) :pattern ((select %s %s))))", p, lo, p, p, hi, A1, p, A0, p, A1, p))
+	// sortedness: for i < j not less(j, i)
+	qi, qj := c.fresh("q_i"), c.fresh("q_j")
+	env := &SpecEnv{S: s, C: c, Heap: s.Heap, Cells: s.Cells, Vars: map[string]TV{}, Pkg: c.pkgOf(cl.Fn), Ghost: s.Ghost}
+	env.Vars[cl.Fn.Params[0].Name()] = TV{T: qj, Ty: tyInt, Sort: "Int"}
+	env.Vars[cl.Fn.Params[1].Name()] = TV{T: qi, Ty: tyInt, Sort: "Int"}
+	env.markBound(cl.Fn.Params[0].Name())
+	env.markBound(cl.Fn.Params[1].Name())
+	for k, fv := range cl.Fn.FreeVars {
+		if k >= len(cl.Bindings) {
+			return false
+		}
+		if l, ok := cl.Bindings[k].(*Loc); ok {
+			t, ty := s.load(l)
+			env.Vars[fv.Name()] = c.mkTV(t, ty)
+		}
+	}
+	t, err := env.evalBool(bin.Y)
+	if err != nil {
+		panic(evalErr(fmt.Sprintf("%s:%d: comparator contract of %s: %v", sp.File, sp.Line, funcKey(cl.Fn), err)))
+	}
+	s.assert(fmt.Sprintf("(forall ((%s Int) (%s Int)) (=> (and (<= 0 %s) (< %s %s) (< %s (s.len %s))) (not %s)))", qi, qj, qi, qi, qj, qj, xs, t))
+	c.assume("A-LIB: sort.Slice leaves a permutation of the elements in which no later element is less than an earlier one, `less` as stated by the contract of " + funcKey(cl.Fn))
+	return true
 }
 
 // inlinable: only code of the repository itself (and closures defined in it) is ever inlined; library code is
